@@ -48,9 +48,12 @@ def make_config(tmp, overrides, sources, cps_from_names=True):
     for p, src in zip(paths, sources):
         c = tuple(cpmod.from_filename(p.stem)) if cps_from_names else tuple(src[2])
         by_stem[p.stem] = GM(c, glyph_name(c))
+        if p.stem == "notdef":
+            # art for the .notdef glyph itself (what a glyph map generator of the user's may assign): glyph id 0
+            by_stem[p.stem] = GM((), ".notdef")
     sources = [(fn, text, tuple(by_stem[Path(fn).stem].codepoints), png) for fn, text, cps, png in sources]
     fea = tmp / "features.fea"
-    fea.write_text(features.generate_fea([tuple(cps) for _, _, cps, _ in sources]))
+    fea.write_text(features.generate_fea([tuple(cps) for _, _, cps, _ in sources if cps]))
     cfg = cfgmod.load(None, additional_srcs=tuple(paths))._replace(family="Verif", fea_file=str(fea))
     cfg = cfg._replace(**overrides)
     inputs, picos = [], []
